@@ -951,7 +951,11 @@ class BytePairEncodingVectorizer(BaseEstimator, TransformerMixin):
                 data.extend([1 for i in range(row.shape[0])])
                 indptr.append(len(indices))
 
-            result = scipy.sparse.csr_matrix((data, indices, indptr), dtype=np.float32)
+            result = scipy.sparse.csr_matrix(
+                (data, indices, indptr),
+                shape=(len(indptr) - 1, len(self.column_label_dictionary_)),
+                dtype=np.float32,
+            )
             result.sum_duplicates()
 
             return result
